@@ -239,48 +239,35 @@ Qed.
 (* bodies *)
 Definition want_data (w : want) : bytes := match w_body w with WBytes b => b | WStream _ s => st_data s end.
 
-(* AppendBody is never applied to a body set with SetBodyRaw (finding appendbody-after-setbodyraw) *)
-Fixpoint raw_free (raw : bool) (prog : list hop) : bool :=
-  match prog with
-  | [] => true
-  | HAppendBody _ :: r => negb raw && raw_free false r
-  | HSetBodyRaw _ :: r => raw_free true r
-  | (HSetBody _ | HResetBody | HSetBodyStream _ _ | HError _ _) :: r => raw_free false r
-  | _ :: r => raw_free raw r
-  end.
-
-Definition body_rel (R : response) (w : want) (raw : bool) : Prop :=
+Definition body_rel (R : response) (w : want) : Prop :=
   match r_stream R with
-  | Some s => (exists n, w_body w = WStream n s) /\ r_body R = [] /\ r_raw R = None /\ raw = false
+  | Some s => (exists n, w_body w = WStream n s) /\ r_body R = [] /\ r_raw R = None
   | None => match r_raw R with
-            | Some x => w_body w = WBytes x /\ r_body R = [] /\ raw = true
-            | None => w_body w = WBytes (r_body R) /\ raw = false
+            | Some x => w_body w = WBytes x
+            | None => w_body w = WBytes (r_body R)
             end
   end.
 
-Lemma body_run prog : forall R w raw, body_rel R w raw -> raw_free raw prog = true ->
+Lemma body_run prog : forall R w, body_rel R w ->
   final_body (hrun R prog) = want_data (fold_left want_step prog w).
 Proof.
-  induction prog as [|o prog IH]; intros R w raw Hb Hf.
+  induction prog as [|o prog IH]; intros R w Hb.
   - cbn [hrun fold_left]. unfold final_body, want_data, bodyBytes. unfold body_rel in Hb.
     destruct (r_stream R) as [s|]; [destruct Hb as ((n & ->) & _); reflexivity|].
-    destruct (r_raw R) as [x|]; [destruct Hb as (-> & _); reflexivity|destruct Hb as (-> & _); reflexivity].
-  - cbn [hrun fold_left]. destruct o; cbn [raw_free] in Hf; cbn [hstep want_step].
-    + apply (IH _ _ raw); [|exact Hf]. unfold body_rel in *. cbn [with_hd r_stream r_raw r_body].
-      destruct o; exact Hb.
-    + apply (IH _ _ raw); [|exact Hf]. exact Hb.
-    + apply (IH _ _ false); [|exact Hf]. unfold body_rel, SetBody. cbn [r_stream r_raw r_body w_body]. split; reflexivity.
-    + apply andb_true_iff in Hf as [Hr Hf]. apply negb_true_iff in Hr. subst raw.
-      apply (IH _ _ false); [|exact Hf]. unfold body_rel in *. unfold AppendBody. cbn [r_stream r_raw r_body w_body].
+    destruct (r_raw R) as [x|]; rewrite Hb; reflexivity.
+  - cbn [hrun fold_left]. apply IH. destruct o; cbn [hstep want_step].
+    + unfold body_rel in *. cbn [with_hd r_stream r_raw r_body]. destruct o; exact Hb.
+    + exact Hb.
+    + unfold body_rel, SetBody. cbn [r_stream r_raw r_body w_body]. reflexivity.
+    + unfold body_rel in *. unfold AppendBody. cbn [r_stream r_raw r_body w_body].
       destruct (r_stream R) as [s|].
-      * destruct Hb as ((n & ->) & -> & _). split; reflexivity.
-      * destruct (r_raw R) as [x|]; [destruct Hb as (_ & _ & ?); discriminate|]. destruct Hb as (-> & _). split; reflexivity.
-    + apply (IH _ _ true); [|exact Hf]. unfold body_rel, SetBodyRaw. cbn [r_stream r_raw r_body w_body]. repeat split; reflexivity.
-    + apply (IH _ _ false); [|exact Hf]. unfold body_rel, ResetBody. cbn [r_stream r_raw r_body w_body]. split; reflexivity.
-    + apply (IH _ _ false); [|exact Hf]. unfold body_rel, SetBodyStream. cbn [r_stream r_raw r_body w_body].
-      split; [now exists size|]. repeat split; reflexivity.
-    + apply (IH _ _ raw); [|exact Hf]. exact Hb.
-    + apply (IH _ _ false); [|exact Hf]. unfold body_rel, CtxError. cbn [r_stream r_raw r_body w_body]. split; reflexivity.
+      * destruct Hb as ((n & ->) & -> & ->). reflexivity.
+      * destruct (r_raw R) as [x|]; rewrite Hb; reflexivity.
+    + unfold body_rel, SetBodyRaw. cbn [r_stream r_raw r_body w_body]. reflexivity.
+    + unfold body_rel, ResetBody. cbn [r_stream r_raw r_body w_body]. reflexivity.
+    + unfold body_rel, SetBodyStream. cbn [r_stream r_raw r_body w_body]. split; [now exists size|]. split; reflexivity.
+    + exact Hb.
+    + unfold body_rel, CtxError. cbn [r_stream r_raw r_body w_body]. reflexivity.
 Qed.
 
 Lemma final_body_finish c q R : final_body (fst (srv_finish c q R)) = final_body R.
@@ -299,10 +286,10 @@ Section Top.
   Proof. intros Hw. apply srv_finish_inv. apply hrun_inv; [apply srv_init_inv|exact Hw]. Qed.
   Lemma finished_status c q prog : RStatusCode (r_hd (finished c q prog)) = w_status (want_of prog).
   Proof. unfold finished. rewrite status_finish. apply status_run. apply status_init. Qed.
-  Lemma finished_body c q prog : raw_free false prog = true -> final_body (finished c q prog) = want_data (want_of prog).
+  Lemma finished_body c q prog : final_body (finished c q prog) = want_data (want_of prog).
   Proof.
-    intros Hf. unfold finished. rewrite final_body_finish. apply (body_run prog _ _ false); [|exact Hf].
-    unfold body_rel, srv_init. cbv zeta. cbn [r_stream r_raw r_body want0 w_body]. split; reflexivity.
+    unfold finished. rewrite final_body_finish. apply body_run.
+    unfold body_rel, srv_init. cbv zeta. cbn [r_stream r_raw r_body want0 w_body]. reflexivity.
   Qed.
   Lemma serve_one_write c q prog wire res cl : serve_one smsg date c q prog = (wire, res, cl) ->
     respWrite smsg date (finished c q prog) = (wire, res) /\ (res = WrErr -> cl = true).
@@ -313,7 +300,7 @@ Section Top.
   Qed.
 
   Theorem exactly_one_response c q m prog tail wire cl :
-    Forall hop_wf prog -> raw_free false prog = true -> q_head q = is_head m ->
+    Forall hop_wf prog -> q_head q = is_head m ->
     guard m (finished c q prog) -> stream_small (finished c q prog) ->
     status_in_scope (w_status (want_of prog)) = true ->
     serve_one smsg date c q prog = (wire, WrOk, cl) ->
@@ -322,24 +309,24 @@ Section Top.
       p_body p = (if bodyless m (w_status (want_of prog)) then [] else want_data (want_of prog)) /\
       p_trailers p = [] /\ p_rest p = tail /\ p_until_close p = false.
   Proof.
-    intros Hw Hf Hq Hg Hsm Hsc Hs. destruct (serve_one_write _ _ _ _ _ _ Hs) as [Hwr _].
+    intros Hw Hq Hg Hsm Hsc Hs. destruct (serve_one_write _ _ _ _ _ _ Hs) as [Hwr _].
     assert (Hin : in_scope (r_hd (finished c q prog))).
     { unfold in_scope. rewrite finished_status. unfold status_in_scope in Hsc. lia. }
     destruct (write_parses smsg date Hsmsg Hdate m _ wire tail (finished_inv c q prog Hw) Hg Hin Hsm Hwr) as (p & E & A1 & A2 & A3 & A4 & A5).
-    exists p. rewrite finished_status in A1, A2. rewrite (finished_body c q prog Hf) in A2. repeat split; assumption.
+    exists p. rewrite finished_status in A1, A2. rewrite (finished_body c q prog) in A2. repeat split; assumption.
   Qed.
 
   (* nothing follows the head when the request was HEAD or the status is 204 / 304 *)
   Theorem no_body_for_head_204_304 c q m prog wire cl :
-    Forall hop_wf prog -> raw_free false prog = true -> q_head q = is_head m ->
+    Forall hop_wf prog -> q_head q = is_head m ->
     guard m (finished c q prog) -> stream_small (finished c q prog) ->
     status_in_scope (w_status (want_of prog)) = true ->
     bodyless m (w_status (want_of prog)) = true ->
     serve_one smsg date c q prog = (wire, WrOk, cl) ->
     exists p, resp_parse m wire = Some p /\ p_status p = w_status (want_of prog) /\ p_body p = [] /\ p_rest p = [] /\ p_until_close p = false.
   Proof.
-    intros Hw Hf Hq Hg Hsm Hsc Hb Hs.
-    destruct (exactly_one_response c q m prog [] wire cl Hw Hf Hq Hg Hsm Hsc Hs) as (p & E & A1 & A2 & A3 & A4 & A5).
+    intros Hw Hq Hg Hsm Hsc Hb Hs.
+    destruct (exactly_one_response c q m prog [] wire cl Hw Hq Hg Hsm Hsc Hs) as (p & E & A1 & A2 & A3 & A4 & A5).
     rewrite app_nil_r in E. rewrite Hb in A2. exists p. repeat split; assumption.
   Qed.
 End Top.
@@ -347,7 +334,7 @@ End Top.
 (* two responses written one after the other are read as two: the second starts exactly where the first ends *)
 Theorem next_response_starts_at_end date smsg1 smsg2 c q1 q2 m1 m2 prog1 prog2 w1 w2 cl1 cl2 :
   nc date -> nc smsg1 -> nc smsg2 ->
-  Forall hop_wf prog1 -> Forall hop_wf prog2 -> raw_free false prog1 = true -> raw_free false prog2 = true ->
+  Forall hop_wf prog1 -> Forall hop_wf prog2 ->
   q_head q1 = is_head m1 -> q_head q2 = is_head m2 ->
   guard m1 (finished c q1 prog1) -> guard m2 (finished c q2 prog2) ->
   stream_small (finished c q1 prog1) -> stream_small (finished c q2 prog2) ->
@@ -359,9 +346,9 @@ Theorem next_response_starts_at_end date smsg1 smsg2 c q1 q2 m1 m2 prog1 prog2 w
     p_body p2 = (if bodyless m2 (w_status (want_of prog2)) then [] else want_data (want_of prog2)) /\
     p_rest p1 = w2 /\ p_rest p2 = [].
 Proof.
-  intros Hd Hs1 Hs2 Hw1 Hw2 Hf1 Hf2 Hq1 Hq2 Hg1 Hg2 Hm1 Hm2 Hc1 Hc2 E1 E2.
-  destruct (exactly_one_response smsg1 date Hs1 Hd c q1 m1 prog1 w2 w1 cl1 Hw1 Hf1 Hq1 Hg1 Hm1 Hc1 E1) as (p1 & P1 & A1 & A2 & A3 & A4 & A5).
-  destruct (exactly_one_response smsg2 date Hs2 Hd c q2 m2 prog2 [] w2 cl2 Hw2 Hf2 Hq2 Hg2 Hm2 Hc2 E2) as (p2 & P2 & B1 & B2 & B3 & B4 & B5).
+  intros Hd Hs1 Hs2 Hw1 Hw2 Hq1 Hq2 Hg1 Hg2 Hm1 Hm2 Hc1 Hc2 E1 E2.
+  destruct (exactly_one_response smsg1 date Hs1 Hd c q1 m1 prog1 w2 w1 cl1 Hw1 Hq1 Hg1 Hm1 Hc1 E1) as (p1 & P1 & A1 & A2 & A3 & A4 & A5).
+  destruct (exactly_one_response smsg2 date Hs2 Hd c q2 m2 prog2 [] w2 cl2 Hw2 Hq2 Hg2 Hm2 Hc2 E2) as (p2 & P2 & B1 & B2 & B3 & B4 & B5).
   rewrite app_nil_r in P2. exists p1, p2. cbn [parse_seq]. rewrite P1, A4, P2, B4. repeat split; assumption.
 Qed.
 
